@@ -208,3 +208,24 @@ def stub_validation(n_configs, seed):
             failures.append(dict(K=K, batch_size=bs, n=n, error=str(e)[:200]))
     return dict(configs_compared_with_real_multiprocess_DataLoader=compared, batches_compared=batches, mismatches=len(failures),
                 examples=failures[:2])
+
+
+from contextlib import contextmanager
+
+
+@contextmanager
+def dataloader_seam(loader_cls, *modules):
+    """rebind every place the library could take `DataLoader` from: the given modules' `DataLoader` symbol (the seam the
+    code has today) and torch.utils.data(.dataloader).DataLoader (so a refactoring to attribute access stays simulated)"""
+    import torch.utils.data as tud
+    import torch.utils.data.dataloader as tudl
+    saved = []
+    for m in list(modules) + [tud, tudl]:
+        if hasattr(m, "DataLoader"):
+            saved.append((m, m.DataLoader))
+            m.DataLoader = loader_cls
+    try:
+        yield
+    finally:
+        for m, v in saved:
+            m.DataLoader = v
